@@ -659,3 +659,11 @@ Print Assumptions c10_disp_isolation_literal_refuted.
 Print Assumptions c10_disp_backlog_exhaustion_boundary.
 Print Assumptions c10_disp_parse_examples.
 Print Assumptions c10_disp_hostile_trace_example.
+
+(* the per-address connecting map (a HashMap keyed by peer address) never gains an entry by a datagram *)
+Theorem c10_disp_raw_step_connecting_size : forall s pushes addr bs s' e,
+  d_inv s -> rstep s (RopRaw pushes addr bs) = Some (s', e) ->
+  (length (d_connecting s') <= length (d_connecting s))%nat.
+Proof. exact raw_step_connecting_size. Qed.
+
+Print Assumptions c10_disp_raw_step_connecting_size.
